@@ -595,6 +595,17 @@ theorem inv_unfold (x : Nat) (h : ¬ (x = 0 ∨ x = M)) (a a' : Nat)
   dsimp only
   rw [h2]
 
+theorem not_dvd_word (x : Nat) (hxl : x < 9223249991064092674) (h0 : x ≠ 0)
+    (hM : x ≠ 4611624995532046337) : ¬ (4611624995532046337 ∣ x) := by
+  rintro ⟨c, hc⟩
+  rcases c with _ | _ | c
+  · exact h0 (by rw [hc])
+  · exact hM (by rw [hc])
+  · have : 4611624995532046337 * 2 ≤ 4611624995532046337 * (c + 1 + 1) :=
+      Nat.mul_le_mul_left _ (by omega)
+    rw [← hc] at this
+    omega
+
 /-- the initial state of the main loop satisfies the invariant -/
 theorem init_state (x : Nat) (hx : Inv x) (h0 : x ≠ 0) (hM : x ≠ 4611624995532046337) :
     St (x : ZMod P) 0 (if x % 2 = 1 then x else x + 4611624995532046337) 4611624995532046337
@@ -609,9 +620,11 @@ theorem init_state (x : Nat) (hx : Inv x) (h0 : x ≠ 0) (hM : x ≠ 46116249955
     · rw [Nat.cast_add, cast_P, add_zero]
   have hlt : u0 < 13834874986596139011 := by rw [← hu0]; split <;> omega
   have hndvd : ¬ (4611624995532046337 ∣ u0) := by
-    rintro ⟨c, hc⟩
-    rw [← hu0] at hc
-    split at hc <;> omega
+    rw [← hu0]
+    split
+    · exact not_dvd_word x hxl h0 hM
+    · rw [Nat.dvd_add_self_right]
+      exact not_dvd_word x hxl h0 hM
   refine ⟨hodd, by decide, ?_, ?_, ?_, ?_, by omega, by omega⟩
   · exact (Nat.coprime_comm.1 ((Nat.Prime.coprime_iff_not_dvd Primes.prime_M62).2 hndvd))
   · rw [Nat.cast_zero, zero_mul, cast_P]
